@@ -8,6 +8,7 @@
 #include <cstdio>
 #include <cstdlib>
 #include <cstring>
+#include <execinfo.h>
 #include <fcntl.h>
 #include <netinet/in.h>
 #include <sys/epoll.h>
@@ -228,18 +229,15 @@ static void note_alloc_failure()
 {
 	Kernel &k = K();
 	k.alloc_failed_seen++;
-	if (k.failed_alloc_site.empty()) {
-		void *pcs[3] = {__builtin_return_address(1), nullptr, nullptr};
-		char buf[256];
-		std::string site;
-		for (void *pc : pcs) {
-			if (!pc) break;
-			buf[0] = 0;
-			__sanitizer_symbolize_pc(pc, "%f", buf, sizeof buf);
-			if (!site.empty()) site += "<-";
-			site += buf;
-		}
-		k.failed_alloc_site = site;
+	if (k.alloc_failed_seen <= 3) {
+		// raw return addresses; the parent process turns them into function names (same image, ASLR off)
+		void *pcs[14];
+		int n = backtrace(pcs, 14);
+		std::string site = "pcs:";
+		char buf[32];
+		for (int i = 0; i < n; i++) { snprintf(buf, sizeof buf, "%s%lx", i ? "," : "", (unsigned long)pcs[i]); site += buf; }
+		k.failed_alloc_site += (k.failed_alloc_site.empty() ? "" : " + ") + site;
+		fprintf(stderr, "ALLOC-FAIL-SITE %s\n", site.c_str());
 	}
 }
 
